@@ -361,3 +361,10 @@ def guard(body, pred, start=0):
                 ok_defs.add((b, t))
         out = set(base) | ok_defs
     return out
+
+
+def frontier(body, edges, start=0):
+    """the edges of a (hoisting-closed) guard set that can be reached from `start` without using another edge of the set:
+    the entry edges of the guarded region (the right starting points for counting what happens under the guard)"""
+    r = body.reachable([start], blocked_edges=set(edges))
+    return {(b, t) for (b, t) in edges if b in r}
